@@ -15,7 +15,7 @@ import (
 
 func init() {
 	suites["bloom"] = suite{
-		rule: "C35: (1) index(h1,h2,i,m) on boundary/random uint64 values vs model and vs the statement's formula; (2) NewBloomFilter over an (n, rate) grid incl. rates around 0.7071 and the extremes: accept/reject vs model, oracle m>=1 and k>=1 on every accepted configuration, one add+exists on it; (3) script-level episodes on the fake (arbitrary k incl. 0, ragged argument lists, colliding indexes) vs the Lean script model; (4) end-to-end episodes: real NewBloomFilter/Add/AddMulti/Exists/ExistsMulti/Count/Reset/Delete against the fake, server calls and answers vs the Lean glue+script model, '!exists' on every item added since the last reset/delete; (5) overlapping calls on ONE filter value: 'overlap A / B' lines park call A inside the fake client before its arguments are read, run call B (other items) to completion, release A (add/add, add/exists, exists/add), then 4-8 free-running goroutines doing Add/AddMulti/Exists(Multi) with small pre-read delays, emitted in the fake's execution order; the argv each call handed to the client is compared with the argv recomputed from its own items (harness) and with the Lean model's argv (model line), and every item whose Add returned nil gets an '!exists'; non-trivial = distinct op with at least one index/key",
+		rule: "C35: (1) index(h1,h2,i,m) on boundary/random uint64 values vs model and vs the statement's formula; (2) NewBloomFilter over an (n, rate) grid incl. rates around 0.7071 and the extremes: accept/reject vs model, oracle m>=1 and k>=1 on every accepted configuration, one add+exists on it; (3) script-level episodes on the fake (arbitrary k incl. 0, ragged argument lists, colliding indexes) vs the Lean script model; (4) end-to-end episodes: real NewBloomFilter/Add/AddMulti/Exists/ExistsMulti/Count/Reset/Delete against the fake, server calls and answers vs the Lean glue+script model, '!exists' on every item added since the last reset/delete; (5) overlapping calls on ONE filter value: 'overlap A / B' lines park call A inside the fake client before its arguments are read, run call B (other items) to completion, release A (add/add, add/exists, exists/add), then 4-8 free-running goroutines doing Add/AddMulti/Exists(Multi) with small pre-read delays, emitted in the fake's execution order; the argv each call handed to the client is compared with the argv recomputed from its own items (harness) and with the Lean model's argv (model line), and every item whose Add returned nil gets an '!exists'; (6) size: filters with up to 4e8 items (9-10 digit bit offsets) in the end-to-end episodes, and large batches in ONE call — 2500 keys at k=1, ExistsMulti of 650 keys at k=7 (4550 indexes) and 1501 keys at k=3 with added and never-added keys interleaved to the end of the batch, thorough tier also AddMulti of 700 keys at k=7 — judged per position against the added set and by '!exists'; non-trivial = distinct op with at least one index/key",
 		run:  runBloom,
 		replay: func(c *Ctx, lines []string) {
 			ep := &bloomEp{}
@@ -546,12 +546,60 @@ func runBloom(c *Ctx) {
 		}
 		ep.concPhase(c, pool)
 	}
+	// (6) large batches in ONE call (keys*k well beyond a few thousand indexes; batch sizes that are
+	// not multiples of round numbers), mixing added and never-added keys late in the batch
+	big := []struct {
+		n        uint
+		r        float64
+		add, ask int
+	}{{2000, 0.01, 60, 650}, {3000, 0.5, 2500, 300}, {900, 0.1, 40, 1501}}
+	if c.Tier == "thorough" {
+		big = append(big, struct {
+			n        uint
+			r        float64
+			add, ask int
+		}{2000, 0.01, 700, 120}, struct {
+			n        uint
+			r        float64
+			add, ask int
+		}{5000, 0.001, 30, 1001})
+	}
+	for bi, b := range big {
+		bf, err := rueidisprob.NewBloomFilter(&fakeClient{srv: newFakeServer(func() int64 { return 1 })}, "probe", b.n, b.r)
+		if err != nil {
+			continue
+		}
+		m, k, _ := rueidisprob.VerifParams(bf)
+		ep.op(c, fmt.Sprintf("reset %d %d ro=%d n=%d rate=%s", m, k, bi%2, b.n, rateBits(b.r)))
+		c.Hit(fmt.Sprintf("big-batch:k=%d:add=%d:ask=%d", k, b.add, b.ask))
+		added := make([]item, b.add)
+		ws := make([]string, b.add)
+		for i := range added {
+			added[i] = mkItem(fmt.Sprintf("big%d-a%d", bi, i))
+			ws[i] = added[i].word()
+		}
+		ep.op(c, "add "+strings.Join(ws, " "))
+		// the query batch: never-added keys first, then added and never-added ones interleaved to the very end
+		qs := make([]string, b.ask)
+		for i := range qs {
+			if i >= b.ask/3 && i%2 == 0 {
+				qs[i] = added[c.Rng.IntN(len(added))].word()
+			} else {
+				qs[i] = mkItem(fmt.Sprintf("big%d-q%d", bi, i)).word()
+			}
+		}
+		ep.op(c, "exists "+strings.Join(qs, " "))
+		ep.op(c, "count")
+		for j := 0; j < 6; j++ {
+			ep.op(c, "!exists "+added[len(added)-1-j*(len(added)/7)].word())
+		}
+	}
 	// (4) end-to-end episodes on small filters (collisions) and on typical ones
 	cfgs := []struct {
 		n uint
 		r float64
-	}{{1, 0.9}, {1, 0.5}, {2, 0.9}, {3, 0.3}, {5, 0.1}, {4, 0.01}, {100, 0.9}, {50, 0.72}, {1000, 0.001}, {7, 1e-9}}
-	for epi := 0; epi < max(6, c.N/60); epi++ {
+	}{{1, 0.9}, {100000000, 0.01}, {1, 0.5}, {2, 0.9}, {3, 0.3}, {5, 0.1}, {4, 0.01}, {100, 0.9}, {50, 0.72}, {1000, 0.001}, {7, 1e-9}, {400000000, 0.1}}
+	for epi := 0; epi < max(len(cfgs), c.N/60); epi++ {
 		cf := cfgs[epi%len(cfgs)]
 		if epi >= len(cfgs) && c.Rng.IntN(2) == 0 {
 			cf.n, cf.r = uint(1+c.Rng.IntN(30)), 0.05+0.9*c.Rng.Float64()
